@@ -81,9 +81,14 @@ def sample(
         if _is_clifford_circuit(program):
             # If all non-measurement operations are clifford, use the Clifford
             # simulator.
-            return clifford_simulator.CliffordSimulator(seed=seed).run(
-                program, param_resolver=param_resolver, repetitions=repetitions
-            )
+            try:
+                return clifford_simulator.CliffordSimulator(seed=seed).run(
+                    program, param_resolver=param_resolver, repetitions=repetitions
+                )
+            except TypeError:
+                # An operation has a stabilizer effect but no stabilizer-state update rule (e.g. a
+                # matrix gate that happens to be Clifford): use the general simulators below.
+                pass
         if protocols.has_unitary(program):
             return sparse_simulator.Simulator(dtype=dtype, seed=seed).run(
                 program=program, param_resolver=param_resolver, repetitions=repetitions
